@@ -32,7 +32,8 @@ only wrapped in the statement's own frame (lambda bodies are callee frames; comp
 skipped), and when an instrumented function was entered while the statement ran, names that some
 function declares nonlocal / global are not compared (a callee can rebind a caller's variable only so).
 
-Recorded defects are routed to explicit witnesses (kind known-D6, known-D7, finding-*).  A witness that
+Recorded defects are routed to explicit witnesses (kind known-D6, known-D7; the other genuine mismatches
+found on the pinned tree: kind static-mismatch with a descriptive sig, see WITNESSES).  A witness that
 fails switches the corresponding trigger off in the default space (feature) or, where the trigger cannot
 be generated away (D7: every nested def with a parameter), excuses exactly the names the defect can
 touch (mask).  A witness that passes (defect repaired) switches the feature on / the mask off.
@@ -1107,12 +1108,13 @@ def check_static(item):
 
 # ====================================================================== shrinking a static failure
 
-def shrink(src, pred, budget=400):
+def shrink(src, pred, budget=400, deadline=None):
   """Greedy statement-level reduction: delete statements, hoist bodies of compound statements."""
   calls = [0]
 
   def ok(tree):
-    if calls[0] >= budget:
+    if calls[0] >= budget or (deadline is not None and time.time() > deadline):
+      calls[0] = budget
       return False
     calls[0] += 1
     try:
@@ -1179,8 +1181,8 @@ def main():
   ap.add_argument('--maxfail', type=int, default=12)
   a = ap.parse_args()
   thorough = a.tier == 'thorough'
-  nstatic = a.static if a.static is not None else (80000 if thorough else 4000)
-  nrand = a.random if a.random is not None else (12000 if thorough else 800)
+  nstatic = a.static if a.static is not None else (60000 if thorough else 3000)
+  nrand = a.random if a.random is not None else (10000 if thorough else 800)
   K = a.k if a.k is not None else (3 if thorough else 2)
   t0 = time.time()
   scratch = harness.scratch_dir()          # created before the fork: workers share it, we remove it
@@ -1207,12 +1209,14 @@ def main():
   # ---- clause 1
   items = [(i, a.seed * 1000003 + i, features) for i in range(nstatic)]
   nfunc = 0
+  nskipped = 0
   distinct = set()
   masked = {}
   redraws = 0
   static_fail = {}
   for r in harness.pool_map(check_static, items, chunksize=16):
     nfunc += len(r['funcs'])
+    nskipped += r['skipped']
     redraws += r['attempts']
     for h, nn in r['funcs']:
       if nn >= 3:
@@ -1257,6 +1261,7 @@ def main():
     st = r['static']
     if st:
       nfunc += len(st['funcs'])
+      nskipped += st['skipped']
       for h, nn in st['funcs']:
         if nn >= 3:
           distinct.add(h)
@@ -1282,7 +1287,7 @@ def main():
         cat, direction = sig.rsplit('-', 1)
         pred = lambda s, cat=cat, direction=direction: any(
             (m['cat'], m['dir']) == (cat, direction) for m in check_source_static(s, masks=_MASKS)['mismatches'])
-      small = shrink(src, pred)
+      small = shrink(src, pred, deadline=t0 + (780 if thorough else 52))
       r = check_source_static(small, masks=_MASKS)
       detail = r['crash'] or [m for m in r['mismatches']][:3]
       src = small
@@ -1299,12 +1304,12 @@ def main():
   sample_static = static_program(a.seed * 1000003, features)[0]
   harness.emit(dict(
       evaluated=nfunc + instances,
-      functions_compared=nfunc, statement_instances=instances, distinct_nontrivial=len(distinct),
+      functions_compared=nfunc, functions_not_matched_in_symtable=nskipped, statement_instances=instances, distinct_nontrivial=len(distinct),
       static_modules=nstatic, static_redraws=redraws, progen_programs=len(ditems), skeleton_programs=nskel,
       runs=runs, simple_statements=stmts, simple_statements_exercised=exercised,
       witnesses=witness_state, features=list(features), masks=list(masks), masked=masked, avoid=list(avoid),
       seconds=dict(static=round(t1 - t0, 1), dynamic=round(t2 - t1, 1), total=round(time.time() - t0, 1)),
-      rule=('clause 1: seeded random modules (own generator: nested defs / lambdas / classes up to block depth 3, '
+      rule=('clause 1: seeded random modules (own generator: nested defs / lambdas / classes up to block depth 4, '
             'all parameter kinds, defaults, annotations, decorators, imports, global / nonlocal, comprehensions, '
             'with / for / attribute / subscript / starred targets, del, augmented and annotated assignment, walrus) '
             'plus the functions of the progen programs; every function / lambda is compared with '
